@@ -21,6 +21,7 @@ import (
 	"dsim/core"
 	"dsim/dump"
 	"dsim/gen"
+	"dsim/mon"
 	"dsim/sched"
 )
 
@@ -40,10 +41,13 @@ type C07Scenario struct {
 	FreeRunning   bool    `json:"free_running,omitempty"` // big files: real parallelism, hooks in perturbation mode
 	ReadSizes     []int   `json:"read_sizes,omitempty"`
 	ReadErrAt     int     `json:"read_err_at"` // -1 = never
+	FailCall      int     `json:"fail_call"`   // index of the low-level RocksDB call of the compilation that fails (-1 = none)
 	NoFinalNL     bool    `json:"no_final_newline,omitempty"`
 	Tape          []uint8 `json:"tape"`
 	TapeSeed      uint64  `json:"tape_seed"`
 	Calm          int     `json:"calm"`
+
+	failedCall string // which low-level call was failed in this run ("" = none was reached)
 }
 
 func drawC07(rt *rapid.T, tier string) C07Scenario {
@@ -58,6 +62,7 @@ func drawC07(rt *rapid.T, tier string) C07Scenario {
 		BatchSize:     rapid.SampledFrom([]int{1, 2, 3, 7, 50, 1000}).Draw(rt, "batch_size"),
 		BatchParallel: rapid.SampledFrom([]int{0, 1, 2, 4}).Draw(rt, "batch_parallel"),
 		ReadErrAt:     -1,
+		FailCall:      -1,
 		NoFinalNL:     rapid.IntRange(0, 5).Draw(rt, "nofinalnl") == 0,
 		Calm:          rapid.IntRange(0, 2).Draw(rt, "calm"),
 		TapeSeed:      rapid.Uint64().Draw(rt, "tape_seed"),
@@ -91,13 +96,18 @@ func drawC07(rt *rapid.T, tier string) C07Scenario {
 	if rapid.IntRange(0, 7).Draw(rt, "read_err") == 0 {
 		sc.ReadErrAt = rapid.IntRange(0, 4000).Draw(rt, "read_err_at")
 	}
+	if sc.Target != "cdb" && sc.ReadErrAt < 0 && !sc.BadLine && rapid.IntRange(0, 7).Draw(rt, "rocksdb_err") == 0 {
+		// a failing low-level RocksDB call inside the compilation (GetMulti / ExecuteBatch of a batch,
+		// IngestSSTFiles of the builder, ...)
+		sc.FailCall = rapid.SampledFrom([]int{0, 0, 1, 2, 3, 5, 8}).Draw(rt, "fail_call")
+	}
 	sc.Tape = rapid.SliceOfN(rapid.Uint8(), 0, 64).Draw(rt, "tape")
 	return sc
 }
 
 func summaryC07(sc C07Scenario) interface{} {
 	m := map[string]interface{}{"target": sc.Target, "records": sc.Records, "subnet_lines": sc.Nets, "workers": sc.Workers, "bad_line": sc.BadLine,
-		"read_sizes": sc.ReadSizes, "read_err_at": sc.ReadErrAt, "free_running": sc.FreeRunning}
+		"read_sizes": sc.ReadSizes, "read_err_at": sc.ReadErrAt, "free_running": sc.FreeRunning, "failing_rocksdb_call": sc.FailCall}
 	if sc.Target != "cdb" {
 		m["builder"] = sc.Builder
 		if !sc.Builder {
@@ -141,6 +151,11 @@ func compileOnce(sc *C07Scenario, in io.Reader, dir string) (dump.DB, error) {
 	}
 	opts := rdb.CompilationOptions{NumCPU: sc.Workers, UseV2KeySyntax: sc.Target == "rdb2", UseBuilder: sc.Builder,
 		BatchNumParallel: sc.BatchParallel, BatchSize: sc.BatchSize}
+	if sc.FailCall >= 0 {
+		fi := &mon.FaultyRDBI{FailAt: map[int]bool{sc.FailCall: true}, OnFail: func(call string, _ int) { sc.failedCall = call }}
+		rdb.VerifSetCompileWrap(func(d rdb.DBI) rdb.DBI { fi.DBI = d; return fi })
+		defer rdb.VerifSetCompileWrap(nil)
+	}
 	if _, err := rdb.Compile(in, serial, path, opts); err != nil {
 		return nil, err
 	}
@@ -224,6 +239,10 @@ func runC07(t *testing.T, sc C07Scenario, keep bool) *core.Result {
 	if sc.BadLine {
 		res.Fault("rejected-line")
 	}
+	if sc.failedCall != "" {
+		res.Fault("rocksdb-call-error:" + sc.failedCall)
+		res.Population = "faults"
+	}
 	if !finished || res.HarnessErr != "" || len(res.Violations) > 0 {
 		return res
 	}
@@ -239,11 +258,19 @@ func runC07(t *testing.T, sc C07Scenario, keep bool) *core.Result {
 			what = "a read error in the middle of the input"
 		}
 		res.Add("error-swallowed", "error-swallowed|"+strings.Fields(sc.settings())[0], fmt.Sprintf("compilation (%s) succeeded although the input had %s", sc.settings(), what))
+	case !mustFail && cerr != nil && sc.failedCall != "":
+		// a compilation that was handed a storage error may fail
+		res.Probe("compilation_failed_on_rocksdb_error")
 	case !mustFail && cerr != nil:
 		res.Add("compile-failed", "compile-failed", fmt.Sprintf("compilation (%s) of a well-formed file failed: %v", sc.settings(), cerr))
 	case !mustFail:
 		if d := dump.Diff(got, want, "compiled database", "line-by-line codec"); d != "" {
-			res.Add("compiled-db-wrong", "compiled-db-wrong|"+strings.Fields(sc.settings())[0]+"|"+strings.Fields(sc.settings())[1], fmt.Sprintf("%s: %s", sc.settings(), d))
+			if sc.failedCall != "" {
+				// may fail, never wrong data: success was reported although a storage call had failed, and the database is wrong
+				res.Add("error-swallowed", "error-swallowed|rocksdb-call-error|"+strings.Fields(sc.settings())[1], fmt.Sprintf("%s: the low-level call %s failed, the compilation reported success, and %s", sc.settings(), sc.failedCall, d))
+			} else {
+				res.Add("compiled-db-wrong", "compiled-db-wrong|"+strings.Fields(sc.settings())[0]+"|"+strings.Fields(sc.settings())[1], fmt.Sprintf("%s: %s", sc.settings(), d))
+			}
 		}
 		k, v := want.Count()
 		if v > k {
